@@ -267,6 +267,11 @@ func c12Run(c c12Case, log *[]string) (viol string, nontrivial bool, classes []s
 			}
 			id := h[op.N%len(h)]
 			fit := items[id]
+			if (op.N/3)%3 == 1 {
+				// the reactor's tables are keyed by id: a seed is "that seed" whichever Item value names it
+				fit = c12NewSeed(id)
+				classSet["finish-through-another-item-value"] = true
+			}
 			cl := call("finish", id, func() error { return MarkAsFinished(fit) })
 			synctest.Wait()
 			say("finish(%s)", id)
